@@ -11,13 +11,16 @@ package numeric
 
 // bit k of the low half of v1 is bit 2k of the result, bit k of the low half of v2 is bit 2k+1
 // (stated through the inverse below: Deinterleave picks the even bits)
+// (callers inline both: the lemmas below reason about the bit manipulation itself)
 //@ func Interleave
 //@   props C18
 //@   mode bv
+//@   inline
 
 //@ func Deinterleave
 //@   props C18
 //@   mode bv
+//@   inline
 //@   ensures result <= 4294967295
 
 // Round trip: both coordinates come back exactly (their low 32 bits: scaled coordinates are below
